@@ -3,9 +3,12 @@
 seeded/<name>/auto.json (process_seeded.py, the property's own check as first run) and final.json (rerun_seeded.py)."""
 import json,os,glob
 NOTE_C05="see DESIGN.md 0.5.9"
-desc=json.load(open('/verif/seeded/r9_descriptions.json'))
+import sys
+RND=sys.argv[1] if len(sys.argv)>1 else '9'
+desc=json.load(open(f'/verif/seeded/r{RND}_descriptions.json'))
 # strengthened from the agent's description BEFORE the patch was first applied (not observed to be missed)
 pre={
+"C10-r10A":"C10: a quarter of the cases set a size limit of 1-4 (with_search_options) which the server does not honour; the caller must still get exactly what was sent",
 "C13-r9A":"C13 step SearchAdapterError: a user-defined adapter that fails in next() after 0-3 items while the search is open at the server (alone or chained in front of EntriesOnly), then finish()",
 "C11-r9A":"C11 skeleton alphabet: ExtendedResponse with 3 / 1 / 0 elements (17 elements instead of 14), so the AD-style [10] trailer is enumerated behind the operation it belongs to",
 "C12-r9A":"C12: single operations with a ZERO timeout (response 2-25 ms late or never): Timeout at the instant of the call",
@@ -13,11 +16,14 @@ pre={
 }
 # observed missed by the property's own check, then caught after a strengthening
 post={
+"C15-r10A":"C15 values: long VALID text (64 B .. 192 KiB) whose multi-byte character sits on or next to a power-of-two block boundary",
+"C18-r10A":"C18: the percent-escapes of ldapi socket paths are written with lower-case hex digits in every second noise class (RFC 3986: case-insensitive)",
+"C04-r10A":"C04 scenarios: a third deliver the bytes in alternating small (3-62) and large (150-2149) reads, so a response is split and the read completing it brings the following ones; C06 (e2e lane) and C01 (routing lane) caught the change as built",
 "C05-r9A":"new C05 lane `timeout-release`: a second operation is started in the very instant a timeout fires (before the driver task has run) with the counter just below the timed-out id, a third just below the second's; outstanding ids must stay reserved and unique (C05 e2e, C12 and C13 as built all exit 0 with the patch)",
 "C01-r9A":"new C01 lane `premature`: responses under ids that have not been issued yet (allocator's next id + 0..3) arrive while the client is idle, then 1-5 operations; also C13 step Unsolicited kinds 3/4 (stray result/entry under the next id)",
 }
 rows=[]
-for d in sorted(glob.glob('/verif/seeded/*-r9*')):
+for d in sorted(glob.glob(f'/verif/seeded/*-r{RND}[A-D]')):
     n=os.path.basename(d); pid=n.split('-')[0]
     fin=json.load(open(d+'/final.json')) if os.path.exists(d+'/final.json') else None
     auto=json.load(open(d+'/auto.json'))
@@ -27,7 +33,7 @@ for d in sorted(glob.glob('/verif/seeded/*-r9*')):
     else:
         caught=[f"{pid}: {auto['signature']} ({auto['lane']} lane)"] if auto['check_exit']=="1" else []
         exits={pid:int(auto['check_exit'])}
-    meta={"id":n,"property":pid,"round":9,
+    meta={"id":n,"property":pid,"round":int(RND),
      "origin":"independent sub-agent given only the property text, hints towards less obvious code paths, the list of mechanisms used in earlier rounds, and a scratch worktree",
      "change":desc[n]['change'],"needs_to_manifest":desc[n]['needs_to_manifest'],
      "confirmed":"tools/confirm_seeded.sh in a scratch worktree: patch applies, cargo test --workspace --offline green with it, demo.rs fails with the patch and passes without ("+"; ".join(auto.get('confirm_log',[]))+")",
@@ -44,5 +50,5 @@ for d in sorted(glob.glob('/verif/seeded/*-r9*')):
     esc=lambda s:s.replace('|','\\|')
     note=("strengthened first (from the description): "+pre[n]) if n in pre else ("missed at first; added: "+post[n]) if n in post else "caught as built"
     rows.append(f"| {n} | {esc(meta['needs_to_manifest'])} | {esc('; '.join(caught) if caught else 'NOT DETECTED')} | {esc(note)} |")
-open('/tmp/r9_rows.md','w').write("\n".join(rows)+"\n")
+open('/tmp/r'+RND+'_rows.md','w').write("\n".join(rows)+"\n")
 print(len(rows))
